@@ -13,7 +13,7 @@ theorem lookup_dictSet_self {α} (k : String) (v : α) :
     ∀ l : List (String × α), (dictSet k v l).lookup k = some v := by
   intro l
   induction l with
-  | nil => simp [dictSet, List.lookup]
+  | nil => simp [dictSet]
   | cons kv t ih =>
     obtain ⟨k', v'⟩ := kv
     unfold dictSet
